@@ -1,12 +1,12 @@
 ID = "C02"
 COQ_PROPS = "Properties/C02.v"
 JUDGE = "Judge.C02"
-DRIVER = "tdc"
+DRIVER = "c02"
 SHARD = 60
 
 
 def driver_args(tier, seed, phase):
-    a = ["-prop", "C02"]
+    a = []
     if phase == "search":
         a += ["-n", "1500" if tier == "quick" else "20000"]
     return a
@@ -23,13 +23,13 @@ TRUSTED_BASE = [
     "qid_tries regenerated from the source into Gen/Constants.v",
     "harness/tdcx (fake NetConn, script executor, generator), verif hooks in /repo (pkg/verifhook, zz_verif_export.go)",
 ]
-RULE = ("catalogue of the windows the property names (reply during Write, between Write and wait via the schedule point, while waiting, "
+RULE = ("(ID-multiplexed connection) catalogue of the windows the property names (reply during Write, between Write and wait via the schedule point, while waiting, "
         "followed by EOF / Close / cancel / another caller's write error, two callers) x TCP/UDP framing, each repeated because Go's select "
         "is random, + seeded random schedules biased to holds and faults right after replies; non-trivial = a caller was parked before its wait "
-        "or a fault/cancel occurs in the schedule; distinct = distinct Gallina literal")
+        "or a fault/cancel occurs in the schedule; distinct = distinct Gallina literal. (non-pipelined transport) the same windows on the real ReuseConnTransport "
+        "(reply during Write, before the wait, followed by EOF / cancel / transport Close, on fresh and on pooled connections) + seeded random schedules")
 LEVEL_TEXT = ("Theorems for ALL label lists: once the reader has handed a reply to a call, the only thing that call can return is that reply "
               "(whatever follows: EOF, read/write error, Close, context expiry); the first hand-off cannot fail wherever the caller is; a call "
               "that holds a reply is not blocked and both its wait and its error exits return it. Replayed against the real connection on every run.")
 LEVEL_NOTE = ("'Received' is the reader's hand-off step; a context that ends between the socket read and the hand-off is counted as the deadline "
-              "having passed first. Covers the pipelined/UDP connection; the reuse connection's identical pattern is exercised by the "
-              "differential run only when its model is added (DESIGN.md). No axioms.")
+              "having passed first. Covers the pipelined/UDP connection (Model.Tdc) and the non-pipelined transport (Model.Reuse). No axioms.")
